@@ -852,8 +852,8 @@ class PositionArray(PosBase):
 
     def azimuth_to(self, other):
         trs_dir = self.trs.direction_to(other.trs)
-        east_proj = np.squeeze(nputil.row(trs_dir) @ nputil.col(self.enu_east))
-        north_proj = np.squeeze(nputil.row(trs_dir) @ nputil.col(self.enu_north))
+        east_proj = (nputil.row(trs_dir) @ nputil.col(self.enu_east))[..., 0, 0]
+        north_proj = (nputil.row(trs_dir) @ nputil.col(self.enu_north))[..., 0, 0]
 
         return np.arctan2(east_proj, north_proj)
 
@@ -869,7 +869,7 @@ class PositionArray(PosBase):
 
     def elevation_to(self, other):
         trs_dir = self.trs.direction_to(other.trs)
-        up_proj = np.squeeze(nputil.row(trs_dir) @ nputil.col(self.enu_up))
+        up_proj = (nputil.row(trs_dir) @ nputil.col(self.enu_up))[..., 0, 0]
 
         return np.arcsin(up_proj)
 
